@@ -189,6 +189,10 @@ class Escape:
             return False
         if last == "at" and callee.startswith(("std::map", "std::unordered_map")):
             key = f.text(n["args"][0]) if n.get("args") else "?"
+            if obj.endswith("->"):
+                # m->at(k) through an optional-like holder: the idioms read m->find(k), m->count(k), m->end()
+                g = [(k_.replace(obj, obj[:-2] + "."), p_) if isinstance(k_, str) else (k_, p_) for k_, p_ in g]
+                obj = obj[:-2]
             for k, p in g:
                 if p is False and k in ("(%s.end() == %s.find(%s))" % (obj, obj, key),
                                         "(%s.find(%s) == %s.end())" % (obj, key, obj)):
